@@ -132,6 +132,9 @@ func plans(id, tier string) (Plan, bool) {
 			{Pkg: pkgV2, Harness: "c08_chunks", Params: map[bool]string{false: "inputs=1;deviations=3", true: "inputs=3;deviations=3"}[th], Shards: pick(4, 16)},
 			{Pkg: pkgV2, Harness: "c08_pads", Shards: pick(6, 16)},
 			{Pkg: pkgV2, Harness: "c08_faults", Shards: pick(6, 16)},
+			// the same with every trace phase switched on (diagnostic code runs on the same paths)
+			{Pkg: pkgV2, Harness: "c08_faults", Params: "trace=all", Shards: pick(6, 16)},
+			{Pkg: pkgV2, Harness: "c08_chunks", Params: map[bool]string{false: "inputs=2;deviations=1;trace=all", true: "inputs=6;deviations=2;trace=all"}[th], Shards: pick(4, 16)},
 		}}, true
 	case "C09":
 		jobs := []Job{
@@ -181,6 +184,8 @@ func plans(id, tier string) (Plan, bool) {
 			jobs = append(jobs, Job{Pkg: pkgV2, Harness: "c10_total", Params: "shape=3;maxlen=3;ts=all", Shards: 16, MaxProcs: 2})
 		}
 		jobs = append(jobs, Job{Pkg: pkgV2, Harness: "c10_window", Shards: 16})
+		// every trace phase switched on (diagnostic code on the same paths)
+		jobs = append(jobs, Job{Pkg: pkgV2, Harness: "c10_total", Params: fmt.Sprintf("shape=3;maxlen=%d;trace=all", pick(2, 3)), Shards: pick(4, 16), MaxProcs: 2})
 		return Plan{Level: "exploration", Jobs: jobs}, true
 	case "C11":
 		return Plan{Level: "exploration", Jobs: []Job{
@@ -227,6 +232,8 @@ func plans(id, tier string) (Plan, bool) {
 		// many known values that all match one text (fan-out beyond any pool or limit inside the library)
 		jobs = append(jobs, Job{Pkg: pkgSC, Harness: "c14_race", Params: "values=70", Race: true, MaxProcs: 16})
 		jobs = append(jobs, Job{Pkg: pkgSC, Harness: "c14_sched", Instr: "v1", Params: "scenario=12;values=70;policy=delay;budget=0"})
+		// more than a megabyte of registered text (2 values of 540 KB), small queries
+		jobs = append(jobs, Job{Pkg: pkgSC, Harness: "c14_sched", Instr: "v1", Params: fmt.Sprintf("scenario=0;values=2;valuebytes=540000;policy=delay;budget=%d", pick(1, 2)), Shards: pick(8, 16)})
 		jobs = append(jobs, Job{Pkg: pkgExtV1, Harness: "c14_license_sched", Instr: "v1", Shards: pick(4, 16)})
 		jobs = append(jobs, Job{Pkg: pkgExtV1, Harness: "c14_license_sched", Instr: "v1", Params: "scenario=1;budget=" + fmt.Sprint(pick(1, 2)), Shards: pick(4, 16)})
 		jobs = append(jobs, Job{Pkg: pkgExtV1, Harness: "c14_license_race", Race: true, MaxProcs: 16})
